@@ -1357,6 +1357,12 @@ func (a *tsRun) atomicCall(s *tsState, f *frame, in *ssa.Call, name string, fi i
 				if eq.n == 1 {
 					a.record(s, "store", -1, fi, "atomic-cas", in)
 					s.ghosts["cas:"+c.fieldName(fi)] = 1
+					if old.k == kConst {
+						s.ghosts["casfrom:"+c.fieldName(fi)] = int8(old.n)
+					}
+					if nv := a.get(f, cc.Args[2]); nv.k == kConst {
+						s.ghosts["casto:"+c.fieldName(fi)] = int8(nv.n)
+					}
 					dv, ok := c.toDomain(fi, a.get(f, cc.Args[2]))
 					if !ok {
 						a.undecided(in, "CompareAndSwap with a non-constant new value on tracked field "+c.fieldName(fi))
